@@ -98,16 +98,16 @@ func (d *Data) Encode() ([]byte, error) {
 		suffix := entry.Key[lcp:]
 
 		// lcp
-		w.Write(binary.LittleEndian, uint16(lcp))
+		w.WriteLen16(binary.LittleEndian, lcp)
 
 		// suffix length
-		w.Write(binary.LittleEndian, uint16(len(suffix)))
+		w.WriteLen16(binary.LittleEndian, len(suffix))
 
 		// suffix
 		w.Write(binary.LittleEndian, []byte(suffix))
 
 		// value length
-		w.Write(binary.LittleEndian, uint16(len(entry.Value)))
+		w.WriteLen16(binary.LittleEndian, len(entry.Value))
 
 		// value
 		w.Write(binary.LittleEndian, entry.Value)
